@@ -2,6 +2,7 @@ import XsVerif.Driver.Util
 import XsVerif.Model.Lazy
 import XsVerif.Model.SchemaPaths
 import XsVerif.Model.PathEval
+import XsVerif.Model.IdentScope
 import XsVerif.Driver.LazyUtil
 open Lean XsVerif.Driver XsVerif.Lazy XsVerif.SchemaPaths XsVerif.PathEval
 
@@ -48,6 +49,20 @@ def handle (j : Json) : Except String Json := do
     let sel := selC abs t steps
     let ok := sel.all fun c => if abs then matchesB steps c.1 else matchesRel t.tag steps c.1
     return Json.mkObj [("ids", natArr (sel.map (·.2.id))), ("chains_match", ok)]
+  | "identloop" =>
+    -- the loop of iter_errors(path=…) for one key/unique declared by the ancestor at index j of the chains
+    let isKey ← getBool j "key"
+    let jx ← getNat j "j"
+    let evs ← (← getArr j "events").toList.mapM fun e => do
+      let val : Option Int := match e.getObjValAs? Int "val" with
+        | .ok v => some v
+        | .error _ => none
+      pure ({ chain := ← natList (← e.getObjVal? "chain"), node := ← getNat e "node", val } : XsVerif.IdentScope.EvC)
+    let enc (out : List XsVerif.IdentScope.Err) : Json := Json.arr (out.map fun e => match e with
+      | .dup n => Json.arr #["dup", toJson n]
+      | .missing n => Json.arr #["missing", toJson n]).toArray
+    return Json.mkObj [("errs", enc (XsVerif.IdentScope.loopC isKey jx [] [] evs)),
+                       ("errs_repaired", enc (XsVerif.IdentScope.loopCFix isKey jx [] [] evs))]
   | "findallp" =>
     let rows ← (← getArr j "decls").toList.mapM parseRow
     let S := mkSchema rows (← natList (← j.getObjVal? "globals"))
